@@ -284,11 +284,28 @@ def run(prog, rep):
             if rhs is None or rhs['k'] != 'MemberExpr' or lhs is None or lhs['k'] not in ('MemberExpr', 'DeclRefExpr'):
                 continue
             cursor = lhs.get('m') or lhs.get('n')
-            skips = [m for m in f.walk(lp) if m['k'] == 'CXXMemberCallExpr' and (f.callee(m) or {}).get('n') == 'SkipValue']
             members = set(fl['n'] for fl in rec.get('fields', []))
-            incs = [m for m in f.walk(lp) if m['k'] == 'UnaryOperator' and m.get('op') == '++'
-                    and (strip(m['c'][0]) or {}).get('k') == 'MemberExpr' and (strip(m['c'][0]) or {}).get('m') in members]
-            good = (len(skips), len(incs), f.loc(lp))
+
+            def effects(g0, node, depth=0):
+                # SkipValue calls and cursor increments of the loop body, including those of loop-free member helpers it calls
+                sk = inc = 0
+                for m in g0.walk(node):
+                    if m['k'] == 'CXXMemberCallExpr':
+                        cal = g0.callee(m) or {}
+                        if cal.get('n') == 'SkipValue':
+                            sk += 1
+                        elif cal.get('repo') and depth < 2:
+                            h = prog.funcs.get(cal['id'])
+                            if h is not None and h.body is not None and h.cls == g0.cls \
+                                    and not any(x['k'] in ('ForStmt', 'WhileStmt', 'DoStmt') for x in h.walk()):
+                                a, b = effects(h, h.body, depth + 1)
+                                sk, inc = sk + a, inc + b
+                    elif m['k'] == 'UnaryOperator' and m.get('op') == '++' and (strip(m['c'][0]) or {}).get('k') == 'MemberExpr' \
+                            and (strip(m['c'][0]) or {}).get('m') in members:
+                        inc += 1
+                return sk, inc
+            skips, incs = effects(f, lp)
+            good = (skips, incs, f.loc(lp))
             break
         f = dtor
         if good is None:
